@@ -231,12 +231,8 @@ func (g *gen) loopHeader(b *ssa.BasicBlock, li *loopInfo, in State, rc string) (
 	st := in.clone()
 	if g.dryWritten != nil {
 		for c := range g.loopWritten(li) {
-			if _, known := g.ctx.compSort[c]; !known {
-				srt, ok := g.prog.drySorts[c]
-				if !ok {
-					g.unsupportedf("loop writes component %s of unknown sort", c)
-				}
-				g.ctx.comp(c, srt)
+			if !g.importComp(c) {
+				g.unsupportedf("loop writes component %s of unknown sort", c)
 			}
 			n := g.ctx.fresh(c+"_loop", g.ctx.compSort[c])
 			if c == "alloctop" {
@@ -306,9 +302,12 @@ func (g *gen) loopBackEdge(src, header *ssa.BasicBlock, st State, rc string) {
 		}
 		suffix = fmt.Sprintf(".edge%d", k)
 	}
-	for _, a := range g.autoInvariants(header, li) {
-		g.oblige("invariant", fmt.Sprintf("%s.loop%d.auto.%s.preserved%s", g.fnKey, li.ordinal, a.name, suffix), "inferred bound "+a.name, header.Instrs[0].Pos(), rc, a.at(g, next))
+	// inferred counter bounds (`i >= init` for i += c) hold unless the counter wraps around; that is
+	// assumed (machine arithmetic treated as mathematical for monotone loop counters) and recorded
+	if len(g.autoInvariants(header, li)) > 0 {
+		g.ctx.assumed["monotone loop counters do not wrap around (inferred bounds `i >= init` are assumed, not proved)"] = true
 	}
+	_ = suffix
 	for p, v := range next {
 		g.vals[p] = v
 	}
@@ -723,6 +722,19 @@ func (g *gen) instr(in ssa.Instruction, st State, reach string) string {
 		return g.call(x, st, reach)
 	case *ssa.Go:
 		g.ctx.note("go statement dropped")
+		// variables captured by the spawned closure may be written at any later time:
+		// every later read of such a cell yields an arbitrary value
+		if mc, ok := x.Call.Value.(*ssa.MakeClosure); ok {
+			if g.volatile == nil {
+				g.volatile = map[string]bool{}
+			}
+			for _, b := range mc.Bindings {
+				if bv := g.val(b); bv.L == nil {
+					g.volatile[bv.T] = true
+				}
+			}
+			g.ctx.note("cells captured by a spawned goroutine are volatile")
+		}
 	case *ssa.Defer:
 		g.ctx.note("defer ignored: " + calleeName(&x.Call))
 	case *ssa.RunDefers:
@@ -935,6 +947,10 @@ func (g *gen) unop(x *ssa.UnOp, st State, reach string) {
 	switch x.Op {
 	case token.MUL: // load
 		loc := g.derefLoc(v, x.X.Type(), st, reach, x.Pos())
+		if len(loc.Idx) > 0 && g.volatile[loc.Idx[0]] {
+			g.vals[x] = g.havocVal(x.Name()+"_volatile", x.Type(), st, reach)
+			return
+		}
 		t := g.loadLoc(st, loc)
 		s := g.ctx.sortOf(x.Type())
 		n := g.define(x.Name(), s, t)
